@@ -2653,7 +2653,8 @@ impl BytecodeVM {
                     .get_string_constant(name)
                     .ok_or_else(|| JsError::internal_error("Invalid variable name constant"))?;
                 // Try to get the variable, return undefined if not found
-                let value = interp.env_get(&name).unwrap_or(JsValue::Undefined);
+                // (a binding in its temporal dead zone is found: typeof x throws like x does)
+                let value = interp.env_try_get(&name)?.unwrap_or(JsValue::Undefined);
                 self.set_reg(dst, value);
                 Ok(OpResult::Continue)
             }
@@ -2677,6 +2678,14 @@ impl BytecodeVM {
                     .ok_or_else(|| JsError::internal_error("Invalid variable name constant"))?;
                 let value = self.get_reg(init).clone();
                 interp.env_define(name, value, mutable);
+                Ok(OpResult::Continue)
+            }
+
+            Op::DeclareLexical { name } => {
+                let name = self
+                    .get_string_constant(name)
+                    .ok_or_else(|| JsError::internal_error("Invalid variable name constant"))?;
+                interp.env_declare_uninitialized(name);
                 Ok(OpResult::Continue)
             }
 
